@@ -189,7 +189,7 @@ Lemma allocate_policy_sound o st rq numa s :
   /\ (r_bind rq = 2 -> cores_distinct (o_topo o) s).
 Proof.
   intros HT H Hreq.
-  destruct (allocate_cpuset_spec o st rq numa s HT H) as [S1 [S2 [_ [_ S5]]]].
+  destruct (allocate_cpuset_spec o st rq numa s HT H) as [S1 [S2 [_ S5]]].
   specialize (S5 Hreq).
   assert (Hinc : incl s (map cid (o_topo o))) by (intros x Hx; apply (avail_of_topo o st); apply S2; exact Hx).
   unfold satisfied_policy in S5. split.
